@@ -182,3 +182,22 @@ def attach(spec, ref, probes):
     spec['budget'] = bud
     spec['probes'] = probes
     return spec
+
+
+def gen_sweep_base(seed, corpus, ref, fam):
+    """Base spec of a focus sweep: two (sometimes three) clients running shuffled ops of ONE family; the
+    caller adds one run per contended function with strategy 'focus' on it."""
+    rng = random.Random('C20/SWEEP/%d/%s' % (seed, fam))
+    lst = corpus['families'][fam]
+    ops = rng.sample(lst, min(len(lst), 8))
+    ncl = _weighted(rng, [(2, 8), (3, 2)])
+    clients = []
+    for _ in range(ncl):
+        perm = list(ops)
+        rng.shuffle(perm)
+        clients.append(perm[:rng.randint(2, 4)])
+    return {
+        'cmd': 'sim', 'property': 'C20', 'sub': 'S1', 'seed': seed, 'hashseed': hashseed_for(seed), 'families': [fam],
+        'clients': clients, 'gran': 'line', 'scope': ['repo'], 'cat_mode': 'shared', 'rnd_mode': 'shared', 'meta_share': True,
+        'strategy': {'kind': 'focus'}, 'sched_seed': rng.randrange(1 << 30), 'faults': [], 'gcs_at': [],
+    }
